@@ -57,10 +57,12 @@ struct WrapPlan {
   uint64_t calls = 0; // read()/pread() calls on fd
   uint64_t truncated = 0; // calls that delivered fewer bytes than requested because of the plan
   uint64_t delivered = 0; // bytes handed out
-  void arm(int f, const Limiter& l) {
+  uint64_t eof_after = UINT64_MAX; // the source ends after this many bytes (a file that shrank after fstat)
+  void arm(int f, const Limiter& l, uint64_t eof = UINT64_MAX) {
     fd = f;
     lim = l;
     calls = truncated = delivered = 0;
+    eof_after = eof;
     active = true;
   }
   void disarm() {
